@@ -134,8 +134,9 @@ func New(logger *slog.Logger, driver core1_0.CoreDeviceDriver, physicalDevice co
 		options.HeapSizeLimits = make([]int, len(driver.InstanceDriver().GetPhysicalDeviceMemoryProperties(physicalDevice).MemoryHeaps))
 	}
 
-	heapTypeCount := len(options.HeapSizeLimits)
-	externalMemoryTypes := make([]khr_external_memory_capabilities.ExternalMemoryHandleTypeFlags, heapTypeCount)
+	// One entry per memory type (not per heap): the table is indexed by memory type index
+	memoryTypeCount := len(driver.InstanceDriver().GetPhysicalDeviceMemoryProperties(physicalDevice).MemoryTypes)
+	externalMemoryTypes := make([]khr_external_memory_capabilities.ExternalMemoryHandleTypeFlags, memoryTypeCount)
 	// khr_external_memory present by any means
 	if allocator.extensionData.ExternalMemory && len(options.ExternalMemoryHandleTypes) > 0 {
 		externalMemoryTypes = options.ExternalMemoryHandleTypes
